@@ -24,8 +24,8 @@ ANCHOR_FILES = ["src/ropt/optimization/_optimizer.py", "src/ropt/ensemble_evalua
 RULE = ("case = (mode, V, mask, method/script, options); non-trivial if the mask fixes at least one variable and at least one evaluator row was checked; distinct key = case; "
         "monitor_counters: rows/entries checked, gradient entries checked, nested hand-offs")
 ASSUMPTIONS = ["initial values inside the bounds", "nested cases use no variable transform (domain convention of the hand-off is user code)"]
-REQUIRED = {"quick": {"evaluator_rows_checked": 20000, "fixed_entries_checked": 30000, "gradient_fixed_entries_checked": 2000, "result_vectors_checked": 5000, "algorithm_vectors_checked": 3000, "nested_handoffs": 150, "nested_rows_after_handoff": 1000, "explicit_start_vector": 100, "gradients_with_all_realizations_failed": 25, "step_reruns_without_the_nested_plan": 40, "with_relative_perturbations": 50, "requests_in_another_number_type": 80, "masks_given_as_integers": 100, "step_reruns_with_the_mask_replaced_in_the_same_dictionary": 40, "__nontrivial__": 300},
-            "thorough": {"evaluator_rows_checked": 315045, "fixed_entries_checked": 523595, "gradient_fixed_entries_checked": 60000, "result_vectors_checked": 150000, "algorithm_vectors_checked": 100000, "nested_handoffs": 5000, "nested_rows_after_handoff": 28068, "explicit_start_vector": 903, "gradients_with_all_realizations_failed": 400, "step_reruns_without_the_nested_plan": 800, "with_relative_perturbations": 400, "requests_in_another_number_type": 800, "masks_given_as_integers": 800, "step_reruns_with_the_mask_replaced_in_the_same_dictionary": 400, "__nontrivial__": 4000}}
+REQUIRED = {"quick": {"evaluator_rows_checked": 20000, "fixed_entries_checked": 30000, "gradient_fixed_entries_checked": 2000, "result_vectors_checked": 5000, "algorithm_vectors_checked": 3000, "nested_handoffs": 150, "nested_rows_after_handoff": 1000, "explicit_start_vector": 100, "gradients_with_all_realizations_failed": 25, "step_reruns_without_the_nested_plan": 40, "with_relative_perturbations": 50, "requests_in_another_number_type": 80, "masks_given_as_integers": 100, "fixed_variable_declared_integer": 70, "step_reruns_with_the_mask_replaced_in_the_same_dictionary": 40, "__nontrivial__": 300},
+            "thorough": {"evaluator_rows_checked": 315045, "fixed_entries_checked": 523595, "gradient_fixed_entries_checked": 60000, "result_vectors_checked": 150000, "algorithm_vectors_checked": 100000, "nested_handoffs": 5000, "nested_rows_after_handoff": 28068, "explicit_start_vector": 903, "gradients_with_all_realizations_failed": 400, "step_reruns_without_the_nested_plan": 800, "with_relative_perturbations": 400, "requests_in_another_number_type": 800, "masks_given_as_integers": 800, "fixed_variable_declared_integer": 400, "step_reruns_with_the_mask_replaced_in_the_same_dictionary": 400, "__nontrivial__": 4000}}
 BOUNDS = {"quick": {"Vmax": 4}, "thorough": {"Vmax": 5}}
 METHODS = ["scripted", "slsqp", "l-bfgs-b", "nelder-mead", "powell", "de", "de_vec", "workarray"]
 
@@ -135,6 +135,12 @@ def _gen_spec(rng, V, mask, method, refusable=False):
         spec["rmin"] = 0
         k = int(rng.integers(0, 3))
         spec["nan"] = [{"call": k, "r": r, "p": p, "col": 0} for r in range(R) for p in range(-1 if rng.random() < 0.3 else 0, P)]
+    if rng.random() < 0.3:
+        # variable types: a fixed variable declared INTEGER keeps its (fractional) value like any other fixed variable
+        spec["types"] = [int(t) for t in rng.integers(1, 3, size=V)]
+        if m == "differential_evolution":
+            spec["types"] = [1] * V      # SciPy refuses a free integer variable without an integer between its bounds (these boxes are narrow)
+        spec["types"] = [2 if (not mask[v] and rng.random() < 0.6) else spec["types"][v] for v in range(V)]
     return spec
 
 
@@ -184,6 +190,8 @@ def run_case(case, obs):
     if rng.random() < 0.3:
         spec["mask_as_integers"] = True          # flags written as 0/1 integers are the same flags
         obs.count("masks_given_as_integers")
+    if spec.get("types") and any(t == 2 and not mask[v] for v, t in enumerate(spec["types"])):
+        obs.count("fixed_variable_declared_integer")
     tspec = None
     if rng.random() < 0.35:
         tspec = {"vscale": rng.uniform(0.3, 4.0, size=V).tolist(), "voffset": rng.normal(size=V).tolist() if rng.random() < 0.5 else None}
